@@ -676,7 +676,7 @@ class Executor:
                     s3 = st.assume(z3.Not(isn))
                     out.extend(self.ok(SV(TInt, smt.OptInt.oi_val(v.z)), s3))
                 return out
-        raise OutsideSubset(f"expected int, got {v!r}", node)
+        raise OutsideSubset(f"expected int, got {v!r} [{ast.unparse(node) if isinstance(node, ast.AST) else node}]", node)
 
     def ev_BinOp(self, node: ast.BinOp, st: State) -> list[Res]:
         def f(vs, s):
@@ -687,6 +687,17 @@ class Executor:
 
     def binop(self, op: ast.operator, a: Any, b: Any, s: State, node: ast.AST) -> list[Res]:
         if isinstance(a, SV) and isinstance(b, SV):
+            if a.td == TTagSet and b.td == TOptTagSet or a.td == TOptTagSet and b.td == TTagSet:
+                o = a if a.td == TOptTagSet else b
+                isn = smt.OptTagSet.is_ots_none(o.z)
+                out: list[Res] = []
+                if self.feasible(s, isn):
+                    out.extend(self.raise_("TypeError", s.fork().assume(isn), node, "None used as a set"))
+                if self.feasible(s, z3.Not(isn)):
+                    s2 = s.assume(z3.Not(isn))
+                    ov = SV(TTagSet, smt.OptTagSet.ots_val(o.z))
+                    out.extend(self.binop(op, ov if a is o else a, ov if b is o else b, s2, node))
+                return out
             if a.td == TTagSet and b.td == TTagSet:
                 if isinstance(op, ast.BitOr):
                     return self.ok(SV(TTagSet, z3.SetUnion(a.z, b.z), True), s)
@@ -854,6 +865,17 @@ class Executor:
             z = self.contains(b, a, s, node)
             return self.ok(SV(TBool, z if isinstance(op, ast.In) else z3.Not(z)), s)
         if isinstance(a, SV) and isinstance(b, SV):
+            if {a.td, b.td} == {TTagSet, TOptTagSet}:
+                o = a if a.td == TOptTagSet else b
+                isn = smt.OptTagSet.is_ots_none(o.z)
+                out: list[Res] = []
+                if self.feasible(s, isn):
+                    out.extend(self.raise_("TypeError", s.fork().assume(isn), node, "None compared with a set"))
+                if self.feasible(s, z3.Not(isn)):
+                    s2 = s.assume(z3.Not(isn))
+                    ov = SV(TTagSet, smt.OptTagSet.ots_val(o.z))
+                    out.extend(self.compare(op, ov if a is o else a, ov if b is o else b, s2, node))
+                return out
             if a.td == TTagSet and b.td == TTagSet:
                 sub = {ast.LtE: lambda: z3.IsSubset(a.z, b.z), ast.GtE: lambda: z3.IsSubset(b.z, a.z),
                        ast.Lt: lambda: z3.And(z3.IsSubset(a.z, b.z), a.z != b.z),
